@@ -143,35 +143,35 @@ theorem insertNode_canon (S : Schema) (l : List DNode) (n : DNode)
 
 /-! ### finding an instance by its key -/
 
-theorem matchP_congr (S : Schema) (t a : DNode) (hk : kkey S t = kkey S a) (hd : S.isDupInst a.sid = false) :
-    matchP S t = matchP S a := by
+theorem matchK_congr (S : Schema) (t a : DNode) (hk : kkey S t = kkey S a) (hd : S.isDupInst a.sid = false) :
+    matchK S t = matchK S a := by
   funext x
   have hs := kkey_sid S t a hk
   have hd' : S.isDupInst t.sid = false := by rw [hs]; exact hd
-  have h1 := matchP_iff_kkey S t x hd'
-  have h2 := matchP_iff_kkey S a x hd
+  have h1 := matchK_iff_kkey S t x hd'
+  have h2 := matchK_iff_kkey S a x hd
   rw [hk] at h1
-  cases h : matchP S t x <;> cases h' : matchP S a x <;> simp_all
+  cases h : matchK S t x <;> cases h' : matchK S a x <;> simp_all
 
 /-- in a canonical sibling list the instance with the key of `t` is what `lyd_find_sibling_first` returns -/
 theorem findIdx_key (S : Schema) (l : List DNode) (i : Nat) (a t : DNode)
     (hc : canonB S l = true) (hs : ∀ x ∈ l, shapeOk S x = true) (hg : l[i]? = some a)
     (hk : kkey S t = kkey S a) (hd : S.isDupInst a.sid = false) :
-    l.findIdx? (matchP S t) = some i := by
-  rw [matchP_congr S t a hk hd]
+    l.findIdx? (matchK S t) = some i := by
+  rw [matchK_congr S t a hk hd]
   exact findIdx_self S l i a hc hs hg
 
 theorem findIdx_none (S : Schema) (l : List DNode) (t : DNode) (hd : S.isDupInst t.sid = false)
-    (h : ∀ x ∈ l, kkey S x ≠ kkey S t) : l.findIdx? (matchP S t) = none := by
+    (h : ∀ x ∈ l, kkey S x ≠ kkey S t) : l.findIdx? (matchK S t) = none := by
   rw [List.findIdx?_eq_none_iff]
   intro x hx
-  have := matchP_iff_kkey S t x hd
-  cases hm : matchP S t x with
+  have := matchK_iff_kkey S t x hd
+  cases hm : matchK S t x with
   | false => rfl
   | true => exact absurd (this.1 hm) (h x hx)
 
 theorem findForApply_eq (S : Schema) (sibs : List DNode) (d : DNode) (hd : S.isDupInst d.sid = false) :
-    findForApply S sibs d = sibs.findIdx? (matchP S d) := by
+    findForApply S sibs d = sibs.findIdx? (matchK S d) := by
   unfold findForApply
   have : (fun (x : DNode) (_ : Nat) => x.sid == d.sid && instMatch S d x) = (fun x _ => x.sid == d.sid && sameInst S x d) := by
     funext x _
@@ -181,12 +181,12 @@ theorem findForApply_eq (S : Schema) (sibs : List DNode) (d : DNode) (hd : S.isD
     rw [this, findIdxFrom_zero]
     congr 1
     funext x
-    simp [matchP, h]
+    simp [matchK, h]
   · rename_i h
     rw [findIdxFrom_zero]
     congr 1
     funext x
-    simp [matchP, h]
+    simp [matchK, h]
 
 /-! ### erase and update -/
 
